@@ -346,7 +346,7 @@ def check(pid, tier):
                     if hit is not None:
                         known_hits.append((hit, fl))
                     else:
-                        violations.append({"source": "E2/replay", "what": "%s: %s" % (c["name"], fl["message"][:400]),
+                        violations.append({"source": "E2/replay", "what": "%s: %s  [input: %s]" % (c["name"], fl["message"][:400], fl.get("input", "")[:300]),
                                            "obligation": {"contract": c["name"], "function": c.get("function")},
                                            "concrete": fl})
 
